@@ -133,7 +133,8 @@ class Dec(D.Decoder):
 def _describe(mod, ns, ng, hooks, nums, prios, wins, completing_hook=None, special=None):
     """description dict + the event sequence the documented lifecycle prescribes for it"""
     def H(name):
-        d = {"func": HOOK_NAMES[hx.P.get("hook_kind", "def")], "module": mod, "params": {"name": name}}
+        # (partition 'hook_mod': the hooks live in ANOTHER module than the classes they accompany)
+        d = {"func": HOOK_NAMES[hx.P.get("hook_kind", "def")], "module": hx.P.get("hook_mod", mod), "params": {"name": name}}
         if completing_hook == name:
             d["params"]["complete"] = True
         if special and special[0] == name:
@@ -176,8 +177,9 @@ def _describe(mod, ns, ng, hooks, nums, prios, wins, completing_hook=None, speci
 def _check_log(log, exp, model, mod):
     if len(log) != len(exp):
         return hx.fail("lifecycle events", got=[e[:3] for e in log], exp=exp)
+    hook_mod = hx.P.get('hook_mod', mod)
     for ev, e in zip(log, exp):
-        if ev[0] != e[0] or ev[1] != mod:
+        if ev[0] != e[0] or ev[1] != (hook_mod if e[0] == "hook" else mod):
             return hx.fail("lifecycle order / module", got=[x[:3] for x in log], exp=exp)
         if e[0] == "hook":
             if ev[2] != e[1]:
@@ -315,6 +317,30 @@ def unbuildable(p0: int, p1: int, hs01: bool, hs11: bool, n0: int) -> bool:
     return hx.end(True)
 
 
+def three_systems(p0: int, p1: int, p2: int) -> bool:
+    """
+    post: _
+    """
+    # three listed systems with arbitrary priorities: the decoded model schedules them by priority, listing order among equals
+    hx.begin()
+    del LOG[:]
+    del PRESENT[:]
+    hooks = {"pre_model": False, "post_model": False, "pre_sys": [False] * 3, "post_sys": [False] * 3,
+             "pre_grp": [False, False], "post_grp": [False, False]}
+    ps = [p0, p1, p2]
+    data, _ = _describe(MOD, 3, 0, hooks, [0, 0], ps, [(0, 9, 1), (0, 9, 1), (0, 9, 1)])
+    model = Dec(data).decode("file.json")
+    hx.reach('decoded')
+    want = []
+    for i in range(3):
+        pos = len([j for j in want if ps[j] >= ps[i]])
+        want.insert(pos, i)
+    got = [s_.id for s_ in model.systems.execution_queue]
+    if got != ["s%d" % i for i in want]:
+        return hx.end(hx.fail("execution order of three decoded systems", got=got, exp=["s%d" % i for i in want], priorities=ps))
+    return hx.end(sorted(model.systems.systems) == ["s0", "s1", "s2"])
+
+
 def repeat(hm0: bool, hs0: bool, ha1: bool, n0: int, p0: int) -> bool:
     """
     pre: 0 <= n0 <= 2
@@ -375,6 +401,7 @@ def obligations(tier):
                 parts.append({"s": s, "g": g, "G": G})
     parts += [{"s": 1, "g": 1, "G": 1, "mod": "vf_c18_alt"}]
     parts += [{"s": 1, "g": 1, "G": 1, "hook_kind": hk} for hk in ("partial", "instance", "method")]
+    parts += [{"s": 2, "g": 1, "G": 1, "hook_mod": "vf_c18_alt", "hm": [True, True]}, {"s": 1, "g": 2, "G": 1, "hook_mod": "vf_c18_alt", "hm": [False, True]}]
     # a hook completes the model during decoding: later hooks must still receive the model
     parts += [{"s": 2, "g": 1, "G": 1, "completing": "pre_s0", "hm": [False, True]}, {"s": 1, "g": 1, "G": 1, "completing": "post_s0"}]
     # a hook replaces the model's environment / decodes another description with the same decoder object
@@ -394,6 +421,8 @@ def obligations(tier):
         return tuple(out)
     return [
         X("lifecycle", lifecycle, parts=parts, labels=("rich", "empty_group", "nested", "swapped"), labels_for=lab, timeout=1200, encoded=enc),
+        X("three_systems", three_systems, labels=("decoded",), timeout=300, encoded=enc + (SystemManager.add_system,),
+          bounds={"systems": 3, "priorities": "all ints"}),
         X("unbuildable", unbuildable, labels=("refused",), timeout=300, encoded=enc + (SystemManager.add_system,),
           bounds={"description": "2 systems sharing an id, 1 agent group of 0..2 agents; priorities any ints"}),
         X("repeat", repeat, parts=[{"seq": [MOD, MOD]}, {"seq": [MOD, "vf_c18_alt"]}, {"seq": ["vf_c18_alt", MOD, "vf_c18_alt"]},
